@@ -437,11 +437,12 @@ pub fn mode_scen(args: &Args) {
             extra.put("cells", cells);
             extra.put("cells_with_skipped_op", skipped);
         }
-        "c08" | "c04" | "c03" | "c07" => {
+        "c08" | "c04" | "c03" | "c07" | "c10" => {
             let tname: &'static str = match table.as_str() {
                 "c08" => "c08",
                 "c04" => "c04",
                 "c03" => "c03",
+                "c10" => "c10",
                 _ => "c07",
             };
             let cells = {
@@ -450,6 +451,7 @@ pub fn mode_scen(args: &Args) {
                     "c08" => crate::scen2::table_c08(&mut t),
                     "c04" => crate::scen2::table_c04(&mut t),
                     "c03" => crate::scen2::table_c03(&mut t),
+                    "c10" => crate::scen2::table_c10(&mut t),
                     _ => crate::scen2::table_c07(&mut t),
                 }
                 t.cells
